@@ -1702,6 +1702,9 @@ func (m *Model) getCurrentOrNextTask(sy *MSync, blocking bool) {
 			return
 		}
 		m.Sit("retry-limit:task-failed-after-too-many-attempts")
+		if m.Cfg.RetryCount == 0 {
+			m.Sit("retry-limit:with-zero-retries-configured")
+		}
 		m.complete(t, &MResp{Code: "Internal", Text: fmt.Sprintf("Attempted to execute task %d times, but it never completed. This task may cause worker %s to crash.", t.RetryCount+1, w.Key), Sched: true}, false)
 	}
 	m.getNextTask(sy, blocking)
